@@ -776,6 +776,9 @@ func marshalVarint(info TypeInfo, value interface{}) ([]byte, error) {
 			retBytes = make([]byte, 8)
 			binary.BigEndian.PutUint64(retBytes, v)
 		}
+	case big.Int:
+		// arbitrary precision: not limited to the 8 bytes of a bigint
+		retBytes = encBigInt2C(&v)
 	default:
 		retBytes, err = marshalBigInt(info, value)
 	}
